@@ -43,11 +43,15 @@ func DijkstraFromTo(u, t graph.Node, g traverse.Graph) (path []graph.Node, weigh
 func dijkstraFrom(u, t graph.Node, g traverse.Graph) Shortest {
 	var path Shortest
 	// Use the incremental version when a target is provided.
-	if h, ok := g.(graph.Graph); t == nil && ok {
+	if h, ok := g.(graph.Graph); ok {
 		if h.Node(u.ID()) == nil {
 			return Shortest{from: u}
 		}
-		path = newShortestFrom(u, graph.NodesOf(h.Nodes()))
+		if t == nil {
+			path = newShortestFrom(u, graph.NodesOf(h.Nodes()))
+		} else {
+			path = newShortestFrom(u, []graph.Node{u})
+		}
 	} else {
 		if g.From(u.ID()) == graph.Empty {
 			return Shortest{from: u}
